@@ -197,7 +197,7 @@ PLAN = {
              "structs, Encoder and Decoder streams (STD lines: testing, not proof); non-trivial = C17 predicate ok",
     ),
     "C18": dict(
-        streams=[("legacy-apply", 12000, 120000), ("legacy-bytes", 2000, 20000)],
+        streams=[("legacy-apply", 12000, 120000), ("legacy-bytes", 2000, 20000), ("lindex", 0, 0)],
         theorems=[],
         facts=[F + "legacyErrorSites_eq", F + "legacyDefaults_eq", F + "legacyUsesStdlib_eq", F + "legacyConditions_eq"],
         rule=_apply_rule + "; run against a staged copy of the root package built from the working tree",
